@@ -107,7 +107,7 @@ func lookupCaseRun(c *lookupCase, res *result) {
 	writeJSON(routeFile, route)
 	hostFile := filepath.Join(dir, "host_rule.data")
 	writeJSON(hostFile, map[string]interface{}{"Version": "v1", "DefaultProduct": nil,
-		"Hosts": map[string][]string{"tag1": {mapHost("x.t", lm), mapHost("y.t", lm), mapHost("t", lm)}, "tag2": {"other.invalid"}},
+		"Hosts":    map[string][]string{"tag1": {mapHost("x.t", lm), mapHost("y.t", lm), mapHost("t", lm)}, "tag2": {"other.invalid"}},
 		"HostTags": map[string][]string{"p1": {"tag1"}, "p2": {"tag2"}}})
 	vipFile := filepath.Join(dir, "vip_rule.data")
 	writeJSON(vipFile, map[string]interface{}{"Version": "v1", "Vips": map[string][]string{}})
@@ -171,8 +171,6 @@ func lookupCaseRun(c *lookupCase, res *result) {
 				got = req.Route.ClusterName
 			} else {
 				name = "Lookup"
-				var r interface{ String() string }
-				_ = r
 				var rr struct{ c string }
 				if p := vh.Guard(func() {
 					out := ht.Lookup(req)
